@@ -207,8 +207,9 @@ theorem coords_skeleton_documented : Gen.C09.coordsSkeleton = [
   "    v1 = self.df.loc[self.df.loc[:, 'tomo_id'] == tomo_number, ['x', 'y', 'z']].values + self.df.loc[self.df.loc[:, 'tomo_id'] == tomo_number, ['shift_x', 'shift_y', 'shift_z']].values",
   "return v1"] := rfl
 
-/-- `ioutils.dimensions_load`: DataFrame as is, `.com` file, text file (`\\s+` separated, no header, float), list, ndarray (1-D
-reshaped to one row); 1×3 → x,y,z, N×4 → tomo_id,x,y,z, anything else refused -/
+/-- `ioutils.dimensions_load`: DataFrame as is, `.com` file, text file (`\\s+` separated, no header, float), every other
+input through `np.asarray` (list, nested list, tuple, ndarray; 1-D reshaped to one row); 1×3 → x,y,z, N×4 → tomo_id,x,y,z, anything
+else refused -/
 theorem dims_load_skeleton_documented : Gen.C09.dimsLoadSkeleton = [
   "def(input_dims, tomo_idx=None)",
   "if isinstance(input_dims, pd.DataFrame):",
@@ -224,9 +225,8 @@ theorem dims_load_skeleton_documented : Gen.C09.dimsLoadSkeleton = [
   "        v1 = pd.read_csv(input_dims, sep='\\\\s+', header=None, dtype=float)",
   "    else:",
   "        raise ValueError(MSG)",
-  "elif isinstance(input_dims, list):",
-  "    v1 = pd.DataFrame(np.reshape(np.asarray(input_dims), (1, len(input_dims))))",
   "else:",
+  "    input_dims = np.asarray(input_dims)",
   "    if input_dims.ndim == 1:",
   "        input_dims = np.reshape(input_dims, (1, input_dims.shape[0]))",
   "    v1 = pd.DataFrame(input_dims)",
